@@ -307,7 +307,12 @@ def run_impl(scn, scratch, keep=False, snap=False):
     if scn.get("root_mtime") is not None:
         os.utime(root, (scn["root_mtime"], scn["root_mtime"]))
     obs = []
+    clock = None
     for st in scn["steps"]:
+        if st["op"] == "clock":
+            clock = st["t"]
+            obs.append({"edit": "clock"})
+            continue
         if st["op"] not in COMMANDS:
             apply_edit(root, st)
             obs.append({"edit": st["op"]})
@@ -323,7 +328,13 @@ def run_impl(scn, scratch, keep=False, snap=False):
         hs0 = hist_state(root) if snap else None
         if snap:
             impl.audit_start(base)
-        outcome, out = impl.run_cli(cmd, argv, cwd=aux if st.get("rel_dest") else None)
+        if clock is not None:
+            from freezegun import freeze_time
+
+            with freeze_time(clock):
+                outcome, out = impl.run_cli(cmd, argv, cwd=aux if st.get("rel_dest") else None)
+        else:
+            outcome, out = impl.run_cli(cmd, argv, cwd=aux if st.get("rel_dest") else None)
         audit = impl.audit_stop() if snap else None
         after = manifest_listing(root)
         fs_changed = None
